@@ -573,7 +573,7 @@ func (s *sess) checkAcceptorCtor() {
 	if !c.Anchor("acceptor constructor", fn != nil, "NewAcceptorSession", posOf(fn)) {
 		return
 	}
-	paths, _ := an.EnumPaths(fn, 1024)
+	paths, _ := an.EnumPathsX(fn, 1024) // the checks may live in a validation helper
 	var bad []string
 	nOK := 0
 	for _, p := range paths {
@@ -642,7 +642,7 @@ func (s *sess) checkSettingsPreserved(rule string) {
 				return
 			}
 			fa, ok := st.Addr.(*ssa.FieldAddr)
-			if !ok || an.FieldOf(fa) == nil || an.FieldOf(fa).Name() != "LogonSettings" || !an.TypeIs(fa.X.Type(), "session", "Session") {
+			if !ok || an.FieldOf(fa) == nil || an.FieldName(an.FieldOf(fa)) != "LogonSettings" || !an.TypeIs(fa.X.Type(), "session", "Session") {
 				return
 			}
 			// constructor context: the session is allocated in this function
